@@ -5,9 +5,9 @@ from typing import List
 
 from harness.zoo import Cur, rd
 from oracle.recogniser import StubSyntaxError, parse
-from safeds_stubgen.api_analyzer._types import DictType, ListType, NamedType
+from safeds_stubgen.api_analyzer._types import DictType, ListType, NamedSequenceType, NamedType
 from vlib.gapi import INT, STR, generate, mk_api, mk_attr, mk_class, mk_function, mk_init_module, mk_module, self_param
-from vlib.hsupport import OutOfRange, fixed, judge, note, untraced
+from vlib.hsupport import THOROUGH, OutOfRange, fixed, judge, note, untraced
 
 SEL_LEN = 12
 BUILTIN = {"Int", "String", "Boolean", "Float", "Any", "List", "Set", "Map", "Tuple", "Nothing"}
@@ -59,10 +59,20 @@ def build(sel: List[int], cur: Cur):
         add_decoy()
     ref_q = {"full": tq, "partial": ".".join(tq.split(".")[-2:]), "bare": tname}[qual]
     ref = NamedType(tname, ref_q)
-    mk_function(api, m, "f", params=[{"name": "p", "type_": ListType([ref])}, {"name": "q", "type_": DictType(STR, ref)}],
-                results=[("result_1", ref)])
-    c = mk_class(api, m, "User", supers=[tq] if qual == "full" else [])
-    mk_attr(api, c, "a", ref)
+    # the class is used in every position (parameter, generic argument, result, attribute, superclass) / only with type
+    # arguments of its own: X[int] (quick tier: the second form only for plain configurations)
+    only_subscripted = rd(sel, cur, 2) == 1
+    if only_subscripted and (decoy is not None or reexport or qual != "full") and not THOROUGH:
+        raise OutOfRange
+    if only_subscripted:
+        mk_function(api, m, "f", params=[{"name": "p", "type_": NamedSequenceType(tname, ref_q, [INT])}], results=[("result_1", INT)])
+        c = mk_class(api, m, "User")
+        mk_attr(api, c, "a", INT)
+    else:
+        mk_function(api, m, "f", params=[{"name": "p", "type_": ListType([ref])}, {"name": "q", "type_": DictType(STR, ref)}],
+                    results=[("result_1", ref)])
+        c = mk_class(api, m, "User", supers=[tq] if qual == "full" else [])
+        mk_attr(api, c, "a", ref)
     mk_function(api, c, "g", params=[self_param()], results=[("result_1", INT)])
     cfg = {"tmod": tmod, "tname": tname, "decoy": decoy, "qual": qual, "reexport": reexport, "decoy_first": decoy_first}
     return api, cfg
@@ -135,5 +145,5 @@ def CANDIDATES(func: str):
     import itertools
 
     for sel in itertools.product(range(2), range(len(TARGET_MODULES)), range(len(TARGET_NAMES)), range(len(DECOYS)),
-                                 range(len(QUALS)), range(4), range(2)):
-        yield [list(sel) + [0] * 5]
+                                 range(len(QUALS)), range(4), range(2), range(2)):
+        yield [list(sel) + [0] * 4]
